@@ -38,13 +38,15 @@ structure DialCfg where
   scram : ScramEnv := { algorithm := [], user := none, pass := none, cnonces := [], crypto := fun _ _ _ => ([], []) }
   send : SendCfg := {}
 
+/-- the connection as the dial function returns it -/
+def freshConn (cfg : DialCfg) (script : List Act) (caps : List Bytes) : Conn :=
+  { script := script, caps := caps, trace := if cfg.implicitTLS then [.connect, .tlsOn] else [.connect],
+    serverName := cfg.host, tls := cfg.implicitTLS }
+
 /-- connection established by the dial function; smtp.NewClient reads the greeting -/
 def newClient (cfg : DialCfg) (script : List Act) (caps : List Bytes) : Conn × Option Err :=
-  let c : Conn := { script := script, caps := caps, trace := if cfg.implicitTLS then [.connect, .tlsOn] else [.connect],
-                    serverName := cfg.host, tls := cfg.implicitTLS }
   -- DialToSMTPClientWithContext arms the connection deadline before anything is read
-  let (c, _) := c.updateDeadline
-  match c.serverTurn .greeting 220 with
+  match (freshConn cfg script caps).updateDeadline.1.serverTurn .greeting 220 with
   | (c, .error e) => (c.close, some e)
   | (c, .ok _) => (c, none)
 
@@ -59,19 +61,14 @@ def Conn.startTLS (c : Conn) : Conn × Option Err :=
       let c := { c with tls := true }
       -- the handshake consumes one script position
       if c.srvGone then (c, some .eof)
-      else if c.srvSilent then (c.ev (.stall c.armed), some (if c.armed then .timeout else .blocked))
+      else if c.srvSilent then (c.waitSilent.1, some (if c.armed then .timeout else .blocked))
       else
-        let (a, rest) := match c.script with
-          | [] => (Act.drop, [])
-          | a :: rest => (a, rest)
-        let c := { c with script := rest }
-        match a with
-        | .ok => (c.ev .tlsOn).ehlo
-        | .drop => ({ c.ev .drop with srvGone := true }, some .eof)
-        | .stall =>
-          let c := { c with srvSilent := true }
-          (c.ev (.stall c.armed), some (if c.armed then .timeout else .blocked))
-        | _ => (c.ev .tlsFail, some .tls)
+        let c' := c.pop.2
+        match c.pop.1 with
+        | .ok => (c'.ev .tlsOn).ehlo
+        | .drop => ({ c'.ev .drop with srvGone := true }, some .eof)
+        | .stall => (({ c' with srvSilent := true }).waitSilent.1, some (if c'.armed then .timeout else .blocked))
+        | _ => (c'.ev .tlsFail, some .tls)
 
 /-- Client.tls: the policy decision; returns isEncrypted -/
 def clientTLS (cfg : DialCfg) (c : Conn) (isEnc : Bool) : Conn × Bool × Option Err :=
